@@ -92,11 +92,12 @@ pub fn make_where_clause<'a>(
             where_clause
                 .predicates
                 .push(parse_quote!(#ty : #scale_info :: scale::HasCompact));
-        } else {
-            where_clause
-                .predicates
-                .push(parse_quote!(#ty : #scale_info ::TypeInfo + 'static));
         }
+        // Compact fields are described through `FieldBuilder::compact::<Ty>()`, which needs
+        // `Ty: TypeInfo + 'static` just like `ty::<Ty>()` does.
+        where_clause
+            .predicates
+            .push(parse_quote!(#ty : #scale_info ::TypeInfo + 'static));
     });
 
     generics.type_params().for_each(|type_param| {
